@@ -134,7 +134,8 @@ def run_check(prop, tier, seed, jobs=None):
         # configuration (no property may depend on time zone, locale, warning filters, hash seed or -O)
         overlays = [None, None, {"env": {"TZ": "Asia/Tokyo"}}, None, {"preimport": ["vf.monitors.strictwarnings"]}, None,
                     {"env": {"LC_ALL": "C", "PYTHONUTF8": "0", "PYTHONCOERCECLOCALE": "0"}}, {"hashseed": "random"}, None,
-                    {"pyargs": ["-O"]}, {"env": {"TZ": "America/Los_Angeles", "PYTHONWARNINGS": "error::UserWarning"}}, None]
+                    {"pyargs": ["-O"]}, {"env": {"TZ": "America/Los_Angeles", "PYTHONWARNINGS": "error::UserWarning"}}, None,
+                    {"stdout_encoding": "ascii"}, None, {"stdout_encoding": "utf-16"}, None]
         n_over = 0
         for i, s in enumerate(specs):
             if not any(k in s for k in ("env", "pyargs", "preimport", "hashseed", "cwd", "stdout_encoding", "seed_fixed", "no_overlay")):
